@@ -12,7 +12,7 @@ Import ListNotations.
    result or an error (never panics, never waits), the lock counter is back at its value, every
    following line is answered as well and a following "status" returns a result. *)
 Theorem C16_handle_total :
-  total_interface dstate (list token) oracle gval model_handler d_lock json_ok is_status reachable.
+  total_interface dstate (list token) oracle gval model_handler locks_total json_ok is_status reachable.
 Proof. exact handle_total. Qed.
 Print Assumptions C16_handle_total.
 
